@@ -229,6 +229,9 @@ def end_to_end(ctx):
                 if stray:
                     # an unexpected object inside the old cloud group: the listing is not clean, nothing may be deleted
                     ns.put_file(e.CLOUD_ROOT + '/1999.01.01/README.txt', b'not a backup')
+                    # ... and a newer cloud group that lists cleanly after it
+                    ns.mkdir(e.CLOUD_ROOT + '/1999.06.01')
+                    ns.put_file(e.CLOUD_ROOT + '/1999.06.01/1999.06.01-00:00:00.tar.gpg', b'another old cloud backup')
                 uc.emu.pe.save_namespace(e.stage.dir, ns)
                 e.stage.emu.reload()
                 o1 = e.upload()
@@ -238,8 +241,8 @@ def end_to_end(ctx):
                     stats['stray'] = stats.get('stray', 0) + 1
                     if not any('unexpected' in x for x in o1['run'].errors()):
                         ctx.violation('property', 'an unexpected object in a cloud group is not reported [%s]' % prov, {'case': case})
-                    if not any(k.startswith('1999.01.01/1999.01.01-') for k in o1['cloud']):
-                        ctx.violation('property', 'the cloud group 1999.01.01 was deleted although the cloud listing reported an error (unexpected object in it) [%s, page size %d]'
+                    if not any(k.startswith('1999.01.01/1999.01.01-') for k in o1['cloud']) or not any(k.startswith('1999.06.01/') for k in o1['cloud']):
+                        ctx.violation('property', 'the cloud group 1999.01.01 or 1999.06.01 was deleted although the cloud listing reported an error (unexpected object in it) [%s, page size %d]'
                                       % (prov, page), {'case': case})
                     continue
                 stats['runs'] += 1
